@@ -15,6 +15,10 @@ def units(tier):
             us.append(Unit(M.MangleFile, {'n': n, 'level': level}))
             if n <= 3:
                 us.append(Unit(M.MangleDir, {'n': n, 'level': level}))
+    # facade safety: a lookup by Rock Ridge name either finds the entry with exactly that name or reports 'not found'
+    from contracts import names as N
+    for n, ln in ((1, 1), (2, 2), (3, 1)) if tier == 'quick' else ((1, 1), (1, 2), (2, 1), (2, 2), (3, 1), (3, 2), (4, 1)):
+        us.append(Unit(N.FindRRRecord, {'n': n, 'namelen': ln}))
     return us
 
 
@@ -27,6 +31,7 @@ META = {}
 
 META = {
     'assumptions': [
+        'FindRRRecord: directories of 1..3 (thorough 4) children with symbolic names of 1-2 bytes sorted as the list invariant demands; the wanted name symbolic (before, between, equal to, after the children)',
         'source names: E family over the length (quick 1,2,3 for the file/dir manglers; 1,2,3,8,9 for truncate_basename); every character is an arbitrary ASCII character (symbolic) or - at up to three positions - one of five representatives of the non-ASCII classes of str.upper() (1->1 non-d-character, 1->2, 1->3, non-ASCII->ASCII letter, caseless); the class table is checked exhaustively over all code points of the interpreter on every run',
         'source names are non-empty (a file name is)',
         're.sub/re.subn are modelled only for the one pattern the helpers use',
